@@ -45,18 +45,11 @@ Theorem C03_string_annotation_rule : forall fx env e c,
 Proof. exact string_annotation_rule. Qed.
 Print Assumptions C03_string_annotation_rule.
 
-(* ... with that repair the hypothesis is only "a source tree" (no PParsed), and without it the statement is false *)
+(* ... with that repair (present in the tree) the hypothesis is only "a source tree" (no PParsed) *)
 Theorem C03_string_annotation_rule_repaired : forall fx env e c,
   fx_litroot fx = true -> no_parsed e = true -> build fx env c e = build fx env (npc c) (subst fx env (pm c) (injoin c) (infmt c) e).
 Proof. intros fx env e c Hf Hn. apply string_annotation_rule. rewrite Hf. exact Hn. Qed.
 Print Assumptions C03_string_annotation_rule_repaired.
-Theorem C03_string_annotation_rule_refuted_F14 :
-  no_parsed w_F14 = true /\ rule_ok false w_F14 = false /\
-  build fx_none [] pctx w_F14 <> build fx_none [] ctx0 (subst fx_none [] (Parse false) false false w_F14) /\
-  build fx_all [] pctx w_F14 = build fx_all [] ctx0 (subst fx_all [] (Parse false) false false w_F14).
-Proof. exact rule_refuted_F14. Qed.
-Print Assumptions C03_string_annotation_rule_refuted_F14.
-
 (* with the flag off nothing is parsed (postponed evaluation in effect: every string stays a string) *)
 Theorem C03_strings_untouched_when_off : forall fx env e j f, subst fx env NoParse j f e = e.
 Proof. exact subst_noparse_id. Qed.
@@ -121,26 +114,19 @@ Theorem C03_modernize_is_identity : forall fx g, render fx (modernize g) = rende
 Proof. exact modernize_id. Qed.
 Print Assumptions C03_modernize_is_identity.
 
-(* the statement without gap hypothesis is false of the faithful model of the printer without repairs: one witness per
-   known finding (each is replayed on the implementation on every run) *)
-Theorem C03_render_refuted : exists e, wf e = true /\ ~ render_claim fx_none P_TEST e.
+(* (T) the translator found every repair in the tree under test: the model of the tree is the one with all of them *)
+Theorem C03_tree_has_all_repairs : tree_fixes = fx_all.
+Proof. exact tree_is_repaired. Qed.
+Print Assumptions C03_tree_has_all_repairs.
+
+(* the statement without any hypothesis is still false of the faithful model: the two gap families that remain, each with a
+   computed witness that is replayed on the implementation on every run *)
+Theorem C03_render_refuted : exists e, wf e = true /\ ~ render_claim fx_all P_TEST e.
 Proof. exact render_claim_refuted. Qed.
 Print Assumptions C03_render_refuted.
-Theorem C03_render_refuted_F1 : refutes G_GROUP w_F1. Proof. exact refuted_F1. Qed.
-Print Assumptions C03_render_refuted_F1.
-Theorem C03_render_refuted_F3 : refutes G_FSTRING w_F3 /\ refutes G_FSTRING w_F3b. Proof. exact (conj refuted_F3 refuted_F3b). Qed.
-Print Assumptions C03_render_refuted_F3.
-Theorem C03_render_refuted_F4 : refutes G_LAMBDA w_F4 /\ refutes G_LAMBDA w_F4b. Proof. exact (conj refuted_F4 refuted_F4b). Qed.
-Print Assumptions C03_render_refuted_F4.
-Theorem C03_render_refuted_F6 : refutes G_GENEXP w_F6. Proof. exact refuted_F6. Qed.
-Print Assumptions C03_render_refuted_F6.
-Theorem C03_render_refuted_F7 : refutes G_EMPTY_SLICE_TUPLE w_F7. Proof. exact refuted_F7. Qed.
-Print Assumptions C03_render_refuted_F7.
-Theorem C03_render_refuted_F8 : refutes G_YIELD w_F8. Proof. exact refuted_F8. Qed.
+Theorem C03_render_refuted_F8 : refutes fx_all G_YIELD w_F8. Proof. exact refuted_F8. Qed.
 Print Assumptions C03_render_refuted_F8.
-Theorem C03_render_refuted_F9 : refutes G_INT_ATTR w_F9. Proof. exact refuted_F9. Qed.
-Print Assumptions C03_render_refuted_F9.
-Theorem C03_render_refuted_F10 : refutes G_AWAIT w_F10. Proof. exact refuted_F10. Qed.
+Theorem C03_render_refuted_F10 : refutes fx_all G_AWAIT w_F10. Proof. exact refuted_F10. Qed.
 Print Assumptions C03_render_refuted_F10.
 
 (* the strongest true statement, for every combination of repairs: outside the decidable gap families that the repairs
@@ -160,7 +146,7 @@ Theorem C03_render_eq_reference_with_strings : forall fx env top m e,
 Proof. exact render_eq_reference_with_strings. Qed.
 Print Assumptions C03_render_eq_reference_with_strings.
 
-(* the printer with every repair: NO grouping, f-string, lambda, generator, empty-tuple, yield-operand or integer-attribute
+(* THE TREE (every repair present): NO grouping, f-string, lambda, generator, empty-tuple, yield-operand or integer-attribute
    hypothesis.  For every well-formed tree whose f-strings are made of literal text and replacement fields (every tree the
    parser produces), without await (no builder), not a bare yield in a position that needs an expression *)
 Theorem C03_render_eq_reference_repaired : forall env top e,
